@@ -20,7 +20,7 @@ type RunSpec struct {
 	Oracles  []Oracle
 	Mon      MonFlags
 	DetCheck bool
-	Conform  int // number of explored paths to re-execute on the full SimApp (0 = none)
+	Conform  int                                      // number of explored paths to re-execute on the full SimApp (0 = none)
 	Post     func(e *Engine, ev *RunEvidence) []Found // optional extra pass over the explored states (export points, queries)
 	KeepAll  bool
 }
@@ -34,26 +34,26 @@ type CheckSpec struct {
 }
 
 type RunEvidence struct {
-	Run         string           `json:"run"`
-	Scenario    string           `json:"scenario"`
-	Params      string           `json:"params"`
-	FlipIDs     bool             `json:"flip_ids"`
-	Templates   []string         `json:"templates"`
-	Depth       int              `json:"depth_bound"`
-	MaxBlocks   int              `json:"block_bound"`
-	MaxMsgs     int              `json:"msgs_per_block_bound"`
-	Completed   int              `json:"completed_depth"`
-	Exhaustive  bool             `json:"exhaustive_within_bounds"`
-	States      int64            `json:"states"`
-	Transitions int64            `json:"transitions"`
-	SelfLoops   int64            `json:"self_loops"`
-	Levels      []int            `json:"frontier_sizes"`
-	Outcomes    map[string]int64 `json:"outcomes_by_action_kind"`
-	Witnesses   map[string]int64 `json:"witnesses"`
-	Conformed   int              `json:"paths_replayed_on_full_simapp"`
-	ConformSteps int             `json:"blocks_compared_on_full_simapp"`
-	Extra       map[string]int64 `json:"extra,omitempty"`
-	WallS       float64          `json:"wall_s"`
+	Run          string           `json:"run"`
+	Scenario     string           `json:"scenario"`
+	Params       string           `json:"params"`
+	FlipIDs      bool             `json:"flip_ids"`
+	Templates    []string         `json:"templates"`
+	Depth        int              `json:"depth_bound"`
+	MaxBlocks    int              `json:"block_bound"`
+	MaxMsgs      int              `json:"msgs_per_block_bound"`
+	Completed    int              `json:"completed_depth"`
+	Exhaustive   bool             `json:"exhaustive_within_bounds"`
+	States       int64            `json:"states"`
+	Transitions  int64            `json:"transitions"`
+	SelfLoops    int64            `json:"self_loops"`
+	Levels       []int            `json:"frontier_sizes"`
+	Outcomes     map[string]int64 `json:"outcomes_by_action_kind"`
+	Witnesses    map[string]int64 `json:"witnesses"`
+	Conformed    int              `json:"paths_replayed_on_full_simapp"`
+	ConformSteps int              `json:"blocks_compared_on_full_simapp"`
+	Extra        map[string]int64 `json:"extra,omitempty"`
+	WallS        float64          `json:"wall_s"`
 }
 
 type PureEvidence struct {
@@ -224,8 +224,8 @@ func runCheck(prop, tier string) int {
 	var runsEv []RunEvidence
 	var samples []interface{}
 	var allFound []struct {
-		run string
-		f   Found
+		run  string
+		f    Found
 		pure bool
 	}
 	var totStates, totTrans, totConf int64
@@ -242,7 +242,7 @@ func runCheck(prop, tier string) int {
 		remaining := time.Until(deadline)
 		share := remaining / time.Duration(len(runs)-ri)
 		e := &Engine{Sc: rs.Sc, Oracles: rs.Oracles, MonFlags: rs.Mon, DetCheck: rs.DetCheck, KeepAll: rs.KeepAll || rs.Post != nil,
-			Deadline: time.Now().Add(share)}
+			Deadline: time.Now().Add(share), Known: func(sig string) bool { return known.match(prop, sig) != nil }}
 		if err := e.Run(); err != nil {
 			fmt.Fprintf(os.Stderr, "run %s: %v\n", rs.Name, err)
 			return 2
@@ -256,16 +256,16 @@ func runCheck(prop, tier string) int {
 		}
 		for _, f := range e.Found {
 			allFound = append(allFound, struct {
-				run string
-				f   Found
+				run  string
+				f    Found
 				pure bool
 			}{rs.Name, *f, false})
 		}
 		if rs.Post != nil {
 			for _, f := range rs.Post(e, &ev) {
 				allFound = append(allFound, struct {
-					run string
-					f   Found
+					run  string
+					f    Found
 					pure bool
 				}{rs.Name, f, false})
 			}
@@ -304,8 +304,8 @@ func runCheck(prop, tier string) int {
 		pureEv = pe
 		for _, f := range found {
 			allFound = append(allFound, struct {
-				run string
-				f   Found
+				run  string
+				f    Found
 				pure bool
 			}{"pure", f, true})
 		}
@@ -416,8 +416,8 @@ func runCheck(prop, tier string) int {
 			"SUT closed as in DESIGN 3.1: real auth/bank/params/service keepers over an in-memory KV base layer with baseapp's cache-wrapping discipline; prices in the base denomination only (MockTokenKeeper)",
 			"bounds are those listed per run; nothing is claimed beyond them",
 		}, spec.Notes...),
-		"wall_s":     time.Since(start).Seconds(),
-		"violations": nviol,
+		"wall_s":      time.Since(start).Seconds(),
+		"violations":  nviol,
 		"hard_errors": hard,
 	}
 	evDir := filepath.Join(verifDir(), "evidence")
